@@ -3,6 +3,7 @@ from hypothesis import strategies as st
 
 import gen_line
 import gen_source
+import gen_util
 from checks import _prog
 
 ID = "C10"
@@ -61,7 +62,7 @@ def strategy(tier):
     relabel = st.tuples(progs, linemaps()).map(lambda t: {"case": {k: v for k, v in t[0].items() if k != "_label"},
                                                           "linemap": t[1], "min_version": t[0].get("min_version", 7),
                                                           "_label": "relabel_" + t[0].get("_label", "")})
-    return st.one_of(tables, tables, tables, tables, relabel, relabel, progs)
+    return gen_util.weighted((4, tables), (2, relabel), (1, progs))
 
 
 def fixed_cases(tier):
